@@ -1,0 +1,16 @@
+//go:build verif
+
+package pilosa
+
+import "github.com/pilosa/pilosa/pql"
+
+// VerifForward, when set (before any query runs), is called by executor.remoteExec
+// with the query object a node is about to forward to another node and the text it
+// sends for it (QueryRequest.Query). It must not modify q (property C26).
+var VerifForward func(nodeID, index string, q *pql.Query, text string)
+
+func verifForward(nodeID, index string, q *pql.Query, text string) {
+	if h := VerifForward; h != nil {
+		h(nodeID, index, q, text)
+	}
+}
